@@ -24,7 +24,7 @@ APPENDIX = [
     "Unrelated v. Matter, 9 F.3d 77, 80 (2d Cir. 1993) (holding nothing).",
     "See Zed v. Why, 3 Cal. 4th 5 (2001); id. at 6.",
     "Quux, supra, at 44. 18 U.S.C. § 1 (2012).",
-    "(1999)",
+    "In re Nobody, 5 F.2d 6 (1925).",
     "Other v. Thing (1955) 7 Cal.2d 9, 11",
 ]
 
@@ -34,8 +34,11 @@ def setup(tier):
 
 
 def _snap(c):
-    return (kind(c), c.span(), c.full_span(), getattr(c, "year", None), tuple(sorted((k, v) for k, v in c.metadata.__dict__.items() if v is not None)),
-            tuple(sorted((k, v) for k, v in c.groups.items() if v is not None)))
+    """What the append relation compares: kind, where the citation starts, its year and its textual metadata.
+    Span ends and groups are left out on purpose: some reporters-db templates absorb following whitespace or an
+    optional trailing group depending on what comes next, which is not 'metadata taken from another citation'."""
+    return (kind(c), c.span()[0], getattr(c, "year", None),
+            tuple(sorted((k, v) for k, v in c.metadata.__dict__.items() if v is not None and not k.startswith("pin_cite_span"))))
 
 
 def evaluate(case):
@@ -71,17 +74,20 @@ def evaluate(case):
             res.label("parallel-group")
     spans = sorted(c.span() for c in cites)
     res.nontrivial = any(b[0] - a[1] < 300 for a, b in zip(spans, spans[1:]))
-    # metamorphic: append after a paragraph break
+    # metamorphic: append an unrelated paragraph. Both sides end the original text with the paragraph break, so
+    # that "end of text" effects (a pin cite terminated by the end of the text, a template that absorbs the
+    # following character) are the same on both sides and only the appended paragraph differs.
     ap = case.get("append")
     if ap is not None and cites:
-        text2 = text + "\n" + APPENDIX[ap % len(APPENDIX)]
-        cites2, _ = extract({**case, "text": text2})
-        if isinstance(cites2, Raised):
+        base_text = text + "\n"
+        cites1, _ = extract({**case, "text": base_text})
+        cites2, _ = extract({**case, "text": base_text + APPENDIX[ap % len(APPENDIX)]})
+        if isinstance(cites1, Raised) or isinstance(cites2, Raised):
             res.label("raised")
             return res
         res.label("append")
-        before = [_snap(c) for c in cites if not isinstance(c, ReferenceCitation)]
-        after = [_snap(c) for c in cites2 if not isinstance(c, ReferenceCitation) and c.span()[1] <= len(text)]
+        before = [_snap(c) for c in cites1 if not isinstance(c, ReferenceCitation)]
+        after = [_snap(c) for c in cites2 if not isinstance(c, ReferenceCitation) and c.span()[1] <= len(base_text)]
         if before != after:
             diff = next(((a, b) for a, b in zip(before, after) if a != b), (before[len(after):][:1], after[len(before):][:1]))
             res.v("append-changed", f"{diff}")
